@@ -365,6 +365,24 @@ pub fn run(started: Instant) -> i32 {
             evil_p.names = vec!["evil".to_string()];
             let evil_cfg = Cfg::lvl(if b.cfg.layers.compressed() { L4::Compress } else { L4::None }, 5);
             if let Ok(Ok((evil, _))) = guard(|| prog::build(&evil_p, &evil_cfg)) {
+                // variant judged normally: ENCRYPT bit kept, encryption parameters removed - an incoherent header
+                // that must be refused, never repaired as if it were unencrypted
+                let mut inc = archive[..8].to_vec();
+                inc.push(0);
+                inc.extend_from_slice(&evil[9..]);
+                for unauth in [false, true] {
+                    rep0.evaluations += 1;
+                    if let RepairEval::Done(r) = sweep::repair_eval(&inc, &[0], unauth) {
+                        if r.files.contains_key("evil") {
+                            rep0.violate(Violation {
+                                sig: json!({"kind": "incoherent_header_repaired_with_attacker_data", "layers": b.cfg.layers.tag()}),
+                                detail: format!("base {}: header announcing ENCRYPT without encryption parameters + unencrypted body: repair (unauthenticated mode: {unauth}) writes the attacker's file", b.label),
+                                replay: json!({"downgrade": true, "input_hex": hex::encode(&inc)}),
+                                weight: 0,
+                            });
+                        }
+                    }
+                }
                 let mut d = archive[..hl].to_vec();
                 d[7] &= !1u8;
                 d.extend_from_slice(&evil[9..]);
